@@ -9,7 +9,7 @@
 //! run; same again with real frees for schedules whose audits passed.
 use super::vmcommon::*;
 use crate::ctl::vmctl::GcPlan;
-use crate::ctl::vmrun::{run_program, RunOut};
+use crate::ctl::vmrun::{run_program, HostPlan, RunOut};
 use crate::gen::program::{gen_program, GenCfg};
 use crate::kernel::{prng, CaseCtx, Check, Tier};
 use cao_lang::compiler::Module;
@@ -177,9 +177,10 @@ fn minimise(m: &Module, s: &Schedule, sig: &Json) -> (Module, Schedule) {
 
 fn base_schedule_like(s: &Schedule) -> Schedule {
     let mut b = s.clone();
+    // the injected host behaviour and allocation failure (if any) belong to the scenario: the
+    // reference differs in the collector schedule only
     b.gc = GcPlan::Never;
     b.quarantine = true;
-    b.fail_alloc = None;
     b
 }
 
@@ -235,7 +236,13 @@ impl Check for C02 {
             }
         };
         ctx.progress("run dry");
-        let base_s = base_schedule();
+        // the resource knobs are part of the seeded configuration (the same for the reference run
+        // and every schedule): small stacks turn deep programs into Stackoverflow /
+        // CallStackOverflow runs, whose unwinding must not depend on collections either
+        let mut kr = ctx.rng("knobs");
+        let mut base_s = base_schedule();
+        base_s.knobs.value_stack = *kr.pick(&[256usize, 256, 256, 64, 24]);
+        base_s.knobs.call_stack = *kr.pick(&[256usize, 256, 256, 16, 6]);
         let base = run_sched(&program, &base_s);
         ctx.evaluation();
         if base.panic.is_some() || base.aborted {
@@ -317,6 +324,52 @@ impl Check for C02 {
                 report(ctx, &module, &s, sig, what);
             }
         }
+        // the same injected fault with and without collections: error paths (a host function that
+        // fails or returns nil at its k-th call, an allocation that fails) unwind through natives
+        // and guards; the collector must not care
+        if all_audits_passed {
+            let ncalls = base.host_log.len() as u64;
+            let mut faulty: Vec<Schedule> = vec![];
+            for _ in 0..3 {
+                if ncalls > 0 {
+                    let mut s = base_s.clone();
+                    let d = if sr.chance(2, 3) { crate::ctl::vmrun::HostDecision::Fail } else { crate::ctl::vmrun::HostDecision::ReturnNil };
+                    s.host = HostPlan { at: [(sr.below(ncalls), d)].into_iter().collect() };
+                    faulty.push(s);
+                }
+                let mut s = base_s.clone();
+                s.fail_alloc = Some(sr.below(a));
+                faulty.push(s);
+            }
+            for fs in faulty {
+                ctx.progress("run fault reference");
+                let fbase = run_sched(&program, &fs);
+                ctx.evaluation();
+                if fbase.panic.is_some() || fbase.aborted || crate::ctl::vmrun::innermost(&fbase.result) == "Timeout" {
+                    continue;
+                }
+                for plan in [GcPlan::Every, GcPlan::EveryKth(2, 1)] {
+                    let mut s = fs.clone();
+                    s.gc = plan;
+                    ctx.progress("run fault under collection");
+                    let out = run_sched(&program, &s);
+                    ctx.evaluation();
+                    ctx.count("runs_with_injected_fault_under_collection", 1);
+                    ctx.count("fault:host_failures_fired", out.host_fails_fired);
+                    ctx.count("fault:alloc_failures_fired", out.counters.alloc_fail_injected);
+                    if out.counters.gcs > 0 {
+                        ctx.nontrivial(prng::mix(&[phash, s.hash()]));
+                    }
+                    let vs = c02_violations(&fbase, &out);
+                    if !vs.is_empty() {
+                        all_audits_passed = false;
+                    }
+                    for (sig, what) in vs {
+                        report(ctx, &module, &s, sig, what);
+                    }
+                }
+            }
+        }
         // real frees (no quarantine) for this program, only if no audit failed: catches reuse of
         // swept memory showing up as changed data; a crash here kills the worker and is reported
         // by the driver as a crash in phase "run"
@@ -339,8 +392,9 @@ impl Check for C02 {
             // natural schedule under a small real limit
             let peak = base.counters.peak_allocated.max(64);
             for f in [2usize, 1] {
-                let mut s = Schedule::new(GcPlan::Natural, false);
-                s.knobs.budget = DRY_BUDGET;
+                let mut s = base_s.clone();
+                s.gc = GcPlan::Natural;
+                s.quarantine = false;
                 s.knobs.mem_limit = peak * f + 512;
                 ctx.progress("run natural");
                 let out = run_sched(&program, &s);
